@@ -899,8 +899,8 @@ pub fn pattern_strategy(o: &GenOpts) -> BoxedStrategy<Vec<Stmt>> {
     };
     let z = Val::zero;
     // --- dedup: op(a, b) and op(a, copy(b)) [result optionally aliased to an input]
-    let dedup = (val_strategy(), val_strategy(), via(), 0u8..5, proptest::option::of(via()), any::<bool>())
-        .prop_map(move |(va, vb, v, op, alias, swap)| {
+    let dedup = (val_strategy(), val_strategy(), via(), 0u8..5, proptest::option::of(via()), any::<bool>(), 0u8..4)
+        .prop_map(move |(va, vb, v, op, alias, swap, fin)| {
             let mut s = vec![Stmt::Public(va), Stmt::Public(vb), Stmt::Copy(rel(0), v, z())];
             // nodes: a = rel(2), b = rel(1), c = rel(0)
             let mk = |op: u8, x: u16, y: u16| match op {
@@ -916,10 +916,19 @@ pub fn pattern_strategy(o: &GenOpts) -> BoxedStrategy<Vec<Stmt>> {
             } else {
                 s.push(mk(op, rel(3), rel(1)));
             }
+            // a=rel(4) b=rel(3) c=rel(2) r1=rel(1) r2=rel(0)
+            let mut a = 4u16;
             if let Some(av) = alias {
                 s.push(Stmt::Copy(rel(0), av, z()));
+                a += 1;
             }
-            s.push(Stmt::Add(rel(0), rel(1)));
+            // the (possibly aliased, possibly de-duplicated) result read once, by an Add whose
+            // other operand is an input: a fusion candidate sitting on a renamed slot
+            match fin {
+                0 => s.push(Stmt::Add(rel(0), rel(a))),
+                1 => s.push(Stmt::Add(rel(a), rel(0))),
+                _ => s.push(Stmt::Add(rel(0), rel(1))),
+            }
             s
         });
     // --- fusion: m = a*b; [m tied to something]; r = m + c
